@@ -38,6 +38,14 @@ async fn handle_connection(mut socket: TcpStream, controller: Arc<NodeController
 
         let frame_len = u32::from_le_bytes(len_buf) as usize;
         if frame_len == 0 || frame_len > MAX_FRAME_LEN {
+            // Skip the announced body so that its bytes are not parsed as the next frame header.
+            let mut remaining = frame_len;
+            let mut scratch = [0u8; 4096];
+            while remaining > 0 {
+                let n = remaining.min(scratch.len());
+                socket.read_exact(&mut scratch[..n]).await?;
+                remaining -= n;
+            }
             send_response(&mut socket, "ERR invalid frame length").await?;
             continue;
         }
